@@ -16,6 +16,7 @@ R10.8 block loops keep their accumulators: in the stitched block functions no st
       re-loaded from memory in every loop iteration, left unwritten inside the loop, and written back from a
       loop-computed register only after it (all iterations but the last would be lost).
 R10.9 the stitched block functions read the input only within [0, 1024 * num_blocks) (length skeleton, 1..3 blocks).
+R10.10 byte conservation of the five stitched update functions on the IR skeleton, as C05 R05.9.
 R10.4 every block implementation (the four stitched assembly functions and the scalar C block function) carries
       MurmurHash3_x64_128's block constants c1, c2, 0x52dce729, 0x38495ab5; the unit with the tail / finalisation
       carries the two fmix64 multipliers; the stitched SHA-1 halves carry the standard SHA-1 round constants and
